@@ -276,6 +276,10 @@ class StmtMixin:
             for f in fs:
                 nf[f] = T.fresh_value(lay.fields[f], f"{tag}_{o}{f}")
             p.env[o] = T.sv_obj(obj.ty.cls, nf)
+        for n in names:
+            if n in p.env:
+                for f in T.type_facts(p.env[n]):
+                    p.assume(f)
 
     def st_For(self, s, p):
         if s.orelse:
